@@ -792,7 +792,9 @@ func (c *fctx) callStmt(x *ast.CallExpr, n int) (string, string, error) {
 			_ = p
 			return c.flush(n), v.s, err
 		}
-		return "", "", fmt.Errorf("call of untranslated function %s", q)
+		if f = c.autoFn(q, fn); f == nil {
+			return "", "", fmt.Errorf("call of untranslated function %s", q)
+		}
 	}
 	sig := fn.Type().(*types.Signature)
 	var args []string
@@ -1178,4 +1180,30 @@ func (c *fctx) nameOf(goName string) (string, error) {
 		}
 	}
 	return "", fmt.Errorf("idiom: no variable %s", goName)
+}
+
+// autoFn: a function of the package being translated that has no configuration (typically a helper
+// introduced by a refactoring) is translated on demand with the defaults of its caller; it is
+// emitted before its first user and listed in the file's `unfold_aux` tactic.
+func (c *fctx) autoFn(q string, fn *types.Func) *fnCfg {
+	if fn == nil || fn.Pkg() == nil || fn.Pkg().Path() != c.cfg.pkg {
+		return nil
+	}
+	pkg := fn.Pkg().Path()
+	goName := strings.TrimPrefix(q, pkg+".")
+	fd := c.g.l.funcDecl(pkg, goName)
+	if fd == nil || fd.Body == nil {
+		return nil
+	}
+	sig := fn.Type().(*types.Signature)
+	for i := 0; i < sig.Params().Len(); i++ {
+		if _, isFn := sig.Params().At(i).Type().Underlying().(*types.Signature); isFn {
+			return nil
+		}
+	}
+	f := &fnCfg{pkg: pkg, goName: goName, lean: "aux_" + strings.ReplaceAll(goName, ".", "_"), extra: c.cfg.extra, extraArgs: c.cfg.extraArgs,
+		nonNilRecv: c.cfg.nonNilRecv, auto: true}
+	c.g.fns[q] = f
+	c.g.pending = append(c.g.pending, f)
+	return f
 }
